@@ -129,43 +129,47 @@ class Ctx:
         def run_total(arg):
             """total verdicts: an event on which TLC cannot even evaluate the relation (the recorded data does not have
             the shape the specification's operators expect) is unexplainable by the specification: it is rejected with
-            clause spec_eval_error and the rest of the shard is validated without it"""
+            clause spec_eval_error; the events before it keep the verdicts TLC already printed, the events after it are
+            validated by a further TLC run (so the cost stays linear)"""
+            import re as _re
             s, p, n = arg
-            bad = []
-            for attempt in range(25):
-                s_, n_, rc, out = run((s, p, n - len(bad)))
+            bad, outs, done = [], [], 0
+            for attempt in range(400):
+                remaining = n - done
+                if remaining <= 0:
+                    break
+                s_, n_, rc, out = run((s, p, remaining))
                 shutil.rmtree(os.path.join(d, "s%d" % s), ignore_errors=True)
-                ok = "Model checking completed. No error has been found." in out
-                if ok or "The error occurred when TLC was evaluating" not in out and "Error: " not in out:
-                    return s, n - len(bad), rc, out, bad
-                import re as _re
+                if "Model checking completed. No error has been found." in out:
+                    if tlc.parse_stats(out)["distinct"] != remaining + 1:      # every line must have been consumed
+                        return s, n, rc, out, bad, False
+                    outs.append(out); done = n
+                    break
                 ls = _re.findall(r"(?m)^l = (\d+)$", out)
-                if not ls or "evaluating" not in out:
-                    return s, n - len(bad), rc, out, bad
-                k = int(ls[-1])                      # the event at this position of the (current) shard file raised the error
+                if "The error occurred when TLC was evaluating" not in out and "TLC threw an unexpected exception" not in out or not ls:
+                    return s, n, rc, out, bad, False
+                k = int(ls[-1])                      # the event at this position of the current shard file raised the error
                 lines = open(p).read().splitlines()
                 if k < 1 or k > len(lines):
-                    return s, n - len(bad), rc, out, bad
+                    return s, n, rc, out, bad, False
                 ev = json.loads(lines[k - 1])
                 i = out.find("Error:")
                 bad.append((ev["tid"], out[i:i + 300].replace("\n", " ")))
-                del lines[k - 1]
-                open(p, "w").write("\n".join(lines) + ("\n" if lines else ""))
-                if not lines:
-                    return s, 0, 0, "Model checking completed. No error has been found.\n1 states generated, 1 distinct states found, 0 states left on queue.", bad
-            return s, n - len(bad), rc, out, bad
+                outs.append(out)                     # verdict lines of the events before position k are in this output
+                done += k
+                open(p, "w").write("\n".join(lines[k:]) + ("\n" if lines[k:] else ""))
+            return s, n, 0, "\n".join(outs), bad, done >= n
         with ThreadPoolExecutor(max_workers=shards) as ex:
             results = list(ex.map(run_total, files))
         self.p3_wall += time.time() - t0
-        for s, n, rc, out, bad in results:
+        for s, n, rc, out, bad, complete in results:
             for tid, msg in bad:
                 self.rejects[tid] = ["spec_eval_error"]
                 self.notes.append("event %d: TLC could not evaluate the relation: %s" % (tid, msg))
-            ok = "Model checking completed. No error has been found." in out
-            st = tlc.parse_stats(out)
-            if not ok or st["distinct"] != n + 1:
+            if not complete:
                 i = out.find("Error:")
                 raise Machinery("trace validation (shard %d, %d events) did not complete:\n%s" % (s, n, out[i:i + 2500] if i >= 0 else out[-3000:]))
+            st = {"distinct": n + 1}
             self.p3_states += st["distinct"]
             for v in tlc.print_lines(out):
                 if v[0] == "REJECT":
